@@ -13,8 +13,10 @@ import hashlib
 import json
 import os
 import re
+import shutil
 import subprocess
 import sys
+import threading
 import time
 
 HERE = os.path.dirname(os.path.abspath(__file__))
@@ -58,6 +60,9 @@ def fn_spans(text):
     return res
 
 
+_ASM_LOCK = threading.Lock()
+
+
 def run_verus_unit(unit, tier, rlimit=None):
     """returns dict: status(ok|violation|undecided), obligations[], failures[], info"""
     ov = os.path.join(VERIF, "units", unit + ".vu")
@@ -65,13 +70,18 @@ def run_verus_unit(unit, tier, rlimit=None):
     res = dict(unit=unit, engine="verus", obligations=[], failures=[], undecided=None, rewrites=[], functions=[],
                assumptions=[], wall_s=0.0, smt_ms=0)
     try:
-        a = asm.assemble(ov)
+        with _ASM_LOCK:   # assemble.py keeps per-item options in module state: one assembly at a time per process
+            a = asm.assemble(ov)
     except ExtractError as e:
         res["undecided"] = f"extract: {e}"; return res
     except Exception as e:  # overlay bug
         res["undecided"] = f"assemble-error: {type(e).__name__}: {e}"; return res
-    # one file per process: concurrent checks of properties that share a unit must not overwrite each other's input
-    path = os.path.join(BUILD, f"{unit}_p{os.getpid()}.rs")
+    # one directory per process: concurrent checks of properties that share a unit must not overwrite each other's input.
+    # The file name (= Verus crate name, which prefixes every SMT symbol) stays `<unit>.rs` so that the solver sees the
+    # same query on every run; a name carrying the pid made near-limit queries pass or hit the rlimit depending on the pid.
+    wdir = os.path.join(BUILD, f"run_p{os.getpid()}_{unit}")
+    os.makedirs(wdir, exist_ok=True)
+    path = os.path.join(wdir, unit + ".rs")
     open(path, "w").write(a["text"])
     res["rewrites"] = [dict(rule=r, where=w, what=x[:160]) for (r, w, x) in a["log"]]
     res["functions"] = a["functions"]
@@ -85,12 +95,13 @@ def run_verus_unit(unit, tier, rlimit=None):
     if rlimit: cmd += ["--rlimit", str(rlimit)]
     res["cmd"] = " ".join(cmd)
     try:
-        p = subprocess.run(cmd, capture_output=True, text=True, timeout=900, cwd=BUILD)
+        p = subprocess.run(cmd, capture_output=True, text=True, timeout=900, cwd=wdir)
     except subprocess.TimeoutExpired:
         res["undecided"] = "verus timeout (900 s)"; return res
     finally:
         try: os.replace(path, os.path.join(BUILD, unit + os.environ.get("VERIF_BUILD_SUFFIX", "") + ".rs"))   # keep the last input for inspection
         except OSError: pass
+        shutil.rmtree(wdir, ignore_errors=True)
     res["file"] = os.path.join(BUILD, unit + ".rs")
     res["cmd"] = " ".join(cmd).replace(path, res["file"])
     res["wall_s"] = time.time() - t0
